@@ -403,6 +403,22 @@ Definition d_ks_commitments (v : val) : val := ret (
   | _ => None
   end).
 
+(* 1403 / 1404 : MergeProofP of a disclosure proof / an issuance commitment proof (P = VN: new protocol) *)
+Definition d_merge_D (v : val) : val := ret (
+  match v with
+  | VL [p; pP; c; s] =>
+    do p <- as_proofD p; do pP <- as_oZ pP; do c <- as_Z c; do s <- as_Z s;
+    Some (of_outcome of_proofD_main (merge_proofP_D_gen p pP c s))
+  | _ => None
+  end).
+Definition d_merge_U (v : val) : val := ret (
+  match v with
+  | VL [pk; p; pP; c; s] =>
+    do pk <- as_pk pk; do p <- as_proofU p; do pP <- as_oZ pP; do c <- as_Z c; do s <- as_Z s;
+    Some (of_outcome of_proofU (merge_proofP_U pk p pP c s))
+  | _ => None
+  end).
+
 Definition d_mod_inverse (v : val) : val := ret (
   match v with VL [a; n] => do a <- as_Z a; do n <- as_Z n; Some (of_oZ (mod_inverse a n)) | _ => None end).
 Definition d_modpow (v : val) : val := ret (
@@ -549,6 +565,8 @@ Definition dispatch (fn : Z) (v : val) : val :=
   | 1103 => d_nr_build v
   | 1401 => d_keyshare_response v
   | 1402 => d_ks_commitments v
+  | 1403 => d_merge_D v
+  | 1404 => d_merge_U v
   | 1801 => d_marshal_text v
   | 1802 => d_unmarshal_text v
   | 1803 => d_decimal v
